@@ -151,17 +151,17 @@ structure SigLine where
   timeB : Rat
 deriving Repr, DecidableEq
 
-/-- position fields of a time/key signature line for a signature at time `t` found in measure `mi`
-    (`beat = int((time_beats - msb) // 1)`, `offset = (t - msd - beat·dpq)/(ts_den·dpq)`) -/
+/-- position fields of a time/key signature line for a signature at time `t` found in measure `mi`: beat and offset
+    as for a note (fix C08-20; before: `beat = int((time_beats - msb) // 1)`, `offset = (t - msd - beat·dpq)/(ts_den·dpq)`,
+    beats multiplied by divisions per QUARTER - a negative offset for a signature inside a measure of a metre not
+    counted in quarters, which the reader cannot parse) -/
 def Score.encodeSig (sc : Score) (mi : Nat) (t : Int) : Option SigLine := do
   let m ← sc.ms[mi]?
   let s ← tsAt sc.ts t
-  let tb := sc.beats t
-  let beat := (tb - sc.beats m.s).floor
   pure { measure := sc.firstMeasureNumber + mi
-         beat := beat + 1
-         offset := mkRat (t - m.s - beat * sc.divs) (s.den * sc.divs)
-         timeB := tb }
+         beat := encBeat sc.divs s.den (t - m.s) + 1
+         offset := encOffset sc.divs s.den (t - m.s)
+         timeB := sc.beats t }
 
 /-- all signature lines: for each measure in order, the signatures starting in `[m.s, m.e)` in time order -/
 def Score.sigLines (sc : Score) (sigTimes : List Int) : List (Nat × SigLine) :=
@@ -526,7 +526,9 @@ def reconstruct (raw : List SNote) (ts : List TSLine) (ks : List (Rat × Int)) :
   let maxTime := closingTime (ns.map (·.2.offsetB)) first.2.offsetB ts
   let divs := importDivs ts maxTime (ns.map (·.2))
   let minB := (ns.map (·.2.onsetB)).foldl min first.2.onsetB   -- np.unique(...)[0]
-  let t := beatsToQuarters ts first.2.onsetB                     -- min_time = snotes[0].OnsetInBeats
+  -- min_time = min(n.OnsetInBeats for n in snotes)  (fix C08-19; before: snotes[0].OnsetInBeats, the first line in the
+  -- reader's order, which is the earliest one only when no time signature changes inside a measure)
+  let t := beatsToQuarters ts minB
   let shiftQ := if t > 0 then 0 else t
   let bars ← (barNames ns).mapM fun b => do
     let n ← firstOfBar ns b
